@@ -10,6 +10,8 @@ R4  the recursive notifier is called with its contract: child mutex held, and th
 R5  a child is appended to some note P's children list (adoption by nsync_note_free) only in a critical section of P's mutex in which P was found
     not notified - otherwise a notifier or freer of P that is already waiting for P's child list to drain is blocked until the adopted child goes
     away, and the child of the already notified P is never notified.
+R7  nsync_note_free unlinks a child from its list only on the path where child->disconnecting was read as 0 under the child's mutex.
+R8  nsync_mu_unlock_without_wakeup ends a note-mutex critical section only if that section changed neither a child list nor the flag.
 R6  a notifier performs the unlock-n / lock-cached-parent step only if it raised n->disconnecting from zero (path-sensitive: the count read
     under n's mutex is abstracted to {0, non-zero}); otherwise a second disconnector can unlink n, the parent is freed, and the stale pointer is
     locked (finding F5, repaired).
@@ -112,6 +114,37 @@ def run(ctx, rep):
                 rep.violate(Violation('C09.R5', r.where(),
                     'nsync_note_free re-parents a child onto the parent without checking, under the parent\'s mutex, that the parent is not already notified / being drained: a concurrent nsync_note_notify(parent) or nsync_note_free(parent) that is waiting for the parent\'s child list to become empty then blocks until the adopted child is freed or notified, and the adopted child of an already notified parent is never notified',
                     site='nsync_note_free/adopt-into-draining-parent'))
+    # ---- R7: nsync_note_free detaches a child only after finding, under the child's mutex, that nobody is disconnecting it.  A child with
+    # disconnecting != 0 has a thread (its own notifier / freer) that holds a cached pointer to this note and is about to lock it; the freer must
+    # leave that child linked and wait for it to unlink itself - otherwise the note is freed under that thread.
+    rep.rule('C09.R7', 'nsync_note_free unlinks a child only after finding child->disconnecting == 0 under the child\'s mutex')
+    n7 = 0
+    for r in eng.records:
+        if r.kind == 'unlink' and r.field == 'nsync_note_s_.children' and r.entry == 'nsync_note_free' and isinstance(r.element, Ptr):
+            child = Ptr(r.element.base, ())
+            if child == r.obj or child.base == 'arg:n':
+                continue          # the note being freed takes itself off its parent's list: that is the disconnection proper
+            ok = any(isinstance(o, Ptr) and o.base == child.base for o in r.disczero)
+            n7 += 1
+            rep.instance('C09.R7', 'child %s unlinked from %s->children at %s: disconnecting found 0: %s' % (child.base, r.obj.base, r.where(), ok)); rep.oblig('C09.R7', ok)
+            if not ok:
+                rep.violate(Violation('C09.R7', r.where(), 'nsync_note_free detaches a child without having found its disconnecting count zero: a thread that is notifying or freeing that child holds a cached pointer to this note and will lock it after this call has freed it (and the wait for the child list to drain is skipped)',
+                                      site='nsync_note_free/unlink-disconnecting-child'))
+    # ---- R8: a critical section that changed what conditional waiters of a note mutex wait for (the child list, the notified flag) ends with a
+    # waking unlock
+    rep.rule('C09.R8', 'nsync_mu_unlock_without_wakeup on a note mutex only after a critical section that changed neither the child list nor the flag')
+    n8 = 0
+    for r in eng.records:
+        if r.kind == 'release' and isinstance(r.mutex, Ptr) and r.mutex.path and r.mutex.path[-1][1] == MU:
+            n8 += 1
+            if getattr(r, 'callee', '') == 'nsync_mu_unlock_without_wakeup':
+                ok = not getattr(r, 'dirty', False)
+                rep.instance('C09.R8', 'unlock_without_wakeup of %s at %s, section changed list/flag: %s [%s]' % (r.mutex.base, r.where(), not ok, r.entry)); rep.oblig('C09.R8', ok)
+                if not ok:
+                    rep.violate(Violation('C09.R8', r.where(), 'a critical section of a note mutex that changed the child list or the notified flag ends with nsync_mu_unlock_without_wakeup: a thread waiting on that mutex for exactly this change (the freer/notifier waiting for an empty child list, a second notifier waiting for the flag) is not woken - deadlock [entry %s]' % r.entry,
+                                          site='%s/unlock-without-wakeup-after-change' % r.inst.fn.name))
+    if n8:
+        rep.instance('C09.R8', '%d releases of note mutexes examined' % n8); rep.oblig('C09.R8', True)
     rep.floor('C09.R1', 6)
     rep.floor('C09.R2', 2)
     rep.floor('C09.R3', 1)
